@@ -234,8 +234,12 @@ func parseSimilarity(
 	var target string
 	var vector any
 	for _, argument := range field.Arguments {
+		v, ok := arguments[argument.Name.Value].(map[string]any)
+		if !ok {
+			// the argument is null: it names no vector to compare with
+			continue
+		}
 		target = argument.Name.Value
-		v := arguments[target].(map[string]any)
 		vector = v[types.SimilarityArgVector]
 	}
 
